@@ -12,7 +12,7 @@ PROPERTY = "C33"
 LEVEL = "exploration"
 TOL = 1e-9
 META = {
-    "text": "For every capability area class of PQVAreas.py (STATCOM, polygon, VDE 4105/4110/4120/4130 variants, stand-alone PQ and QV parts; 26 area objects incl. none) x every q-model class (10 incl. none) x saturate_sn_mva in {NaN, 0.8 sn, sn} x q_prio x damping in {1, 2}, real DERControllers are stepped on sgens covering sn in {1,2} x 7 active powers (incl. the 0.05 / 0.2 p.u. break points) x 7 start reactive powers x 7 voltages (incl. the exact 96/110 and 127/110 p.u. break points; thorough multi-element mode: 17), as multi-element controllers (quick; damped runs and QModelCosphiSn on a stated sub-grid) and one controller per element (thorough), and through run_control on a 2-bus net (thorough). After every control_step: sqrt(p^2+q^2) <= saturate_sn_mva when saturation is active; when only an area applies, q/sn lies in the documented q range of that area at (p/sn, vm), recomputed independently (own polygon slicing / piecewise-linear limits, no shapely, no q_flexibility call).",
+    "text": "For every capability area class of PQVAreas.py (STATCOM, polygon, VDE 4105/4110/4120/4130 variants, stand-alone PQ and QV parts; 26 area objects incl. none) x every q-model class (10 incl. none) x saturate_sn_mva in {NaN, 0.8 sn, sn} x q_prio x damping in {1, 2}, real DERControllers are stepped on sgens covering sn in {1,2} x 7 active powers (incl. the 0.05 / 0.2 p.u. break points) x 7 start reactive powers x 7 voltages (incl. the exact 96/110 and 127/110 p.u. break points; thorough multi-element mode: 17), as multi-element controllers (mixed inside/outside elements, plus one controller on the elements that all start inside the area; quick: damped runs and QModelCosphiSn on a stated sub-grid) and one controller per element (quick: area+saturation on a 2x2 p/vm sub-grid; thorough: full grid), and through run_control on a 2-bus net (thorough). After every control_step: sqrt(p^2+q^2) <= saturate_sn_mva when saturation is active; when only an area applies, q/sn lies in the documented q range of that area at (p/sn, vm), recomputed independently (own polygon slicing / piecewise-linear limits, no shapely, no q_flexibility call).",
     "note": "Continuous domain: decided on the stated finite P/Q/V grids only. Narrow seam: res_bus.vm_pu is written directly and is_converged/control_step are called in the order run_control uses; the thorough tier also goes through runpp(run_control=True). With damping > 1 and a start outside the capability only the converged state is judged (a damped step is a convex combination of an outside and an inside point), with the controller's own convergence tolerance. Points where the documented area is empty (p or vm outside the polygon, PQ and QV parts disjoint) and steps that raise (documented merge-overlap ValueError, shapely NotImplementedError at p = 0.05 of PQArea4110, scalar q of QModelCosphiSn) are counted, not judged. Area classes whose constructor raises (PQVArea4130V2: AttributeError) are counted. The reference shapes are transcribed from the vertex lists quoted in the class definitions.",
     "technique": "bounded exhaustive input enumeration (full product of finite grids) on the real controller with an independently recomputed capability-area reference",
     "design_ref": "DESIGN.md §3 E1, §4 C33",
@@ -43,6 +43,13 @@ def gen_cases(tier):
     for area in [a for a in kd.area_keys() if a.startswith("pqv")]:
         for sat, qprio in (("nan", True), (1.0, True)):
             cases.append({"mode": "vector", "area": area, "qm": "none", "sat": sat, "q_prio": qprio, "damp": 1, "rmo": False})
+    if tier == "quick":
+        # one controller per element on a small grid, area AND saturation together (a single element inside the area with S above
+        # saturate_sn_mva takes the all-in-area path of _saturate); the thorough tier does this on the full grid
+        for area in [a for a in kd.area_keys() if a != "none"]:
+            for qm in ("none", "const_q_0.3", "cosphi_p_0.9", "qv_curve"):
+                for sat, qprio in _sat_prio()[1:]:
+                    cases.append({"mode": "single", "area": area, "qm": qm, "sat": sat, "q_prio": qprio, "damp": 1, "rmo": True, "tiny_grid": True})
     if tier == "thorough":
         for area in kd.area_keys():
             for qm in ("none", "const_q_-1.0", "cosphi_p_0.9", "cosphi_sn_0.2", "cosphi_p_curve", "qv_curve"):
@@ -63,6 +70,8 @@ def _elements(case, tier_vms):
     sns, ps, ivs = kd.SN, kd.P_PU, list(range(len(tier_vms)))
     if case.get("short_grid"):
         sns, ps, ivs = kd.SN[:1], [0.03, 0.2, 1.0], [0, 1, 3, 4, 6]
+    if case.get("tiny_grid"):
+        sns, ps, ivs = kd.SN[:1], [0.2, 1.0], [3, 4]
     return [(sn, p, q, iv) for iv in ivs for sn in sns for p in ps for q in qs]
 
 
@@ -239,6 +248,20 @@ def run_vector(case, vms):
         _run_group(case, net, a[0], a[1], vms, out)
     if b[0]:
         _run_group(case, net, b[0], b[1], vms, out, expect_refusal=case["rmo"] and case["area"].startswith("pqv4"))
+    # a controller whose elements ALL start inside the area (grouping only: the area's own in_area picks them, the oracle stays the
+    # independent reference): exercises the all-in-area path of _saturate together with the apparent power saturation
+    if case["area"] != "none" and case["qm"] == "none" and a[0]:
+        try:
+            area = kd.make_area(case["area"], raise_merge_overlap=case["rmo"])
+            ins = np.asarray(area.in_area(pd.Series([e[1] for e in a[0]]), pd.Series([e[2] for e in a[0]]), pd.Series([vms[e[3]] for e in a[0]])), dtype=bool)
+        except Exception:
+            ins = np.zeros(len(a[0]), dtype=bool)
+        ie = [e for e, k in zip(a[0], ins) if k]
+        ii = [i for i, k in zip(a[1], ins) if k]
+        if ie and len(ie) < len(a[0]):
+            _reset(net, ie, ii)
+            out["counts"]["inside_only_groups"] = 1
+            _run_group(case, net, ie, ii, vms, out)
     return out
 
 
